@@ -146,6 +146,27 @@ def equiv_global_sigs():
                     dfl = tuple(sorted((a.arg, ast.dump(d, annotate_fields=False)) for a, d in zip(allp[len(allp) - len(fn.args.defaults):], fn.args.defaults)))
                     seen.setdefault(fn.name, set()).add((tuple(ps), dfl))
     _gsigs = {}
+    # effect summaries of every class of the reference files, merged by method name (for calls through other objects)
+    try:
+        from . import equiv as _eq
+        geff, gret = {}, {}
+        for root, _, files in os.walk(base):
+            for f in files:
+                if not f.endswith('.ref'):
+                    continue
+                try:
+                    t = ast.parse(open(os.path.join(root, f), encoding='utf-8', errors='replace').read())
+                except SyntaxError:
+                    continue
+                for st in t.body:
+                    if isinstance(st, ast.ClassDef):
+                        ms = {m.name: m for m in st.body if isinstance(m, ast.FunctionDef)}
+                        own = {x.attr for m in ms.values() for x in ast.walk(m) if isinstance(x, ast.Attribute) and isinstance(x.value, ast.Name) and x.value.id == 'self'}
+                        for name, w in _eq.class_effects(ms).items():
+                            geff.setdefault(name, []).append((st.name, own, set(w)))
+        _gsigs[('effects_any',)] = geff
+    except Exception:
+        pass
     for k, v in seen.items():
         if len(v) == 1 and None not in v:
             ps, dfl = next(iter(v))
